@@ -1,5 +1,6 @@
-"""C12 - client family: lib/cliprop.py (generators), spec/H2Client.tla (design model), spec/H2ClientTrace.tla (trace validation)."""
-import cliprop
+"""C12 - client family: lib/cliprop.py (generators), spec/H2Client.tla (design model), spec/H2ClientTrace.tla (trace validation);
+RoundTrip level: lib/rtfam.py, spec/H2RoundTrip.tla (design model), spec/H2RoundTripTrace.tla (trace validation)."""
+import cliprop, rtfam
 
 LEVEL = 'model_checking'
 
@@ -8,7 +9,11 @@ def run(ctx):
     ctx.assumptions = ['x/net Framer/hpack is the independent server peer', 'client loop hooks (verif build tag) give quiescence',
                        'request/response bodies are fixed functions of (request, offset)']
     cliprop.run(ctx, 'C12')
+    rtfam.run(ctx, {'C12'})
 
 
 def replay(ctx, finding):
-    cliprop.replay(ctx, 'C12', finding)
+    if finding.get('kind') == 'rt':
+        rtfam.replay(ctx, finding, {'C12'})
+    else:
+        cliprop.replay(ctx, 'C12', finding)
